@@ -692,7 +692,7 @@ func (s *Server) serve(c net.Conn, id int) {
 		}
 		var reply bson.D
 		if act.Fail {
-			reply = bson.D{{Key: "ok", Value: 0.0}, {Key: "errmsg", Value: "injected failure"}, {Key: "code", Value: int32(11600)}, {Key: "codeName", Value: "InterruptedAtShutdown"}}
+			reply = bson.D{{Key: "ok", Value: 0.0}, {Key: "errmsg", Value: "injected failure"}, {Key: "code", Value: int32(96)}, {Key: "codeName", Value: "OperationFailed"}}
 		} else {
 			// a defect of the stand-in must not look like a hang of the system under test: a
 			// panic while executing a command is answered as a command failure and counted
